@@ -41,7 +41,10 @@ def main():
         rc, out = sh(f"python3 {VERIF/'harness/run_baseline.py'} {wt}", timeout=3000)
         res["suite_patched"] = {"exit": rc, "tail": out[-300:]}
     sh("git checkout -- .", cwd=wt)
-    # now the registered check against /repo with the patch
+    # now the registered check against /repo with the patch (one at a time: /repo is shared)
+    import fcntl
+    lock = open("/tmp/repo.lock", "w")
+    fcntl.flock(lock, fcntl.LOCK_EX)
     rc, out = sh(f"git -C /repo apply {patch}")
     assert rc == 0, "patch does not apply to /repo: " + out
     try:
@@ -61,8 +64,9 @@ def main():
             res[f"check_{tier}"]["replays"] = replays[:8]
     finally:
         sh("git -C /repo checkout -- .")
-    # evidence files must come from the unchanged tree: rewrite them now
-    sh(f"/venv/bin/python harness/vcheck.py {pid} quick", cwd=VERIF, env=dict(os.environ, VERIF_SEED="0"))
+        fcntl.flock(lock, fcntl.LOCK_UN)
+    # evidence files must come from the unchanged tree: restore them
+    sh(f"git checkout -- evidence/{pid}.json", cwd=VERIF)
     dst = VERIF / "seeded" / sid
     dst.mkdir(parents=True, exist_ok=True)
     shutil.copy(patch, dst / "patch.diff")
